@@ -25,7 +25,8 @@ def cfg_consts(ctx, cfg):
     return {"tables": setof("Tables", str), "keys": setof("Keys", int), "sessions": setof("Sessions", str)}
 
 
-OWN_DEVS = {"C31": ["revert-abort-wipes-dirty"], "C34": ["drop-lost", "stash-overwrites-untracked"]}
+# revert-abort-wipes-dirty is outside C31's statement: counted by the engine (stats dev:...), reported by no check
+OWN_DEVS = {"C34": ["stash-overwrites-untracked"]}
 
 
 def make_cases(ctx, behaviours, cfg, bindings, obs):
